@@ -19,6 +19,7 @@ import importlib
 import json
 import os
 import random
+import re
 import shutil
 import subprocess
 import sys
@@ -305,7 +306,7 @@ def retriage(a):
     for m in results:
         if m["outcome"] != "MISSED" or "others" in m:
             continue
-        if a.survivors_only and "failed" in m.get("suite", ""):
+        if a.survivors_only and re.search(r"\b\d+ failed", m.get("suite", "")):
             continue
         tmp = tempfile.mkdtemp(prefix="coxauto_")
         try:
